@@ -2260,6 +2260,10 @@ def preprocess_file(
         # not stay on the caller's (server-wide) include path
         include_dirs = set(include_dirs)
         include_dirs.add(os.path.abspath(os.path.dirname(file_path)))
+        # The order in which the directories are searched must not depend on
+        # the hash seed: the directory of the file first, the others sorted
+        own_dir = os.path.abspath(os.path.dirname(file_path))
+        include_dirs = [own_dir] + sorted(include_dirs - {own_dir})
         if not include_stack:
             include_stack = (os.path.abspath(file_path),)
     pp_skips = []
